@@ -68,6 +68,7 @@ def main():
     ck.proofs(srcdir=rb.dir)
     rng = ck.rng
     fails, mism = [], []
+    import gen_common; gen_common.translator_selfcheck(ck, rb, mism)
     N = 4 if ck.thorough else 1
     env0 = dict(os.environ, **SAN_ENV)
     home = rb.make_home()
